@@ -149,8 +149,8 @@ other part of `j` as it was, nothing new — and the document is again such a tr
 theorem pop_is_one_tree_update (stepsOf : Heap → List (Step Val)) (root : Val) (j : J) (h h' : Heap) (mm : Bool)
     (m : MNode Val) (hi : DocInv h root j)
     (hpop : popMatch stepsOf (.doc root) mm h = (h', .ok (some m))) :
-    ∃ p nm j', m.parent = some p ∧ J.popAt j p.loc nm = some j' ∧ DocInv h' root j' ∧
-      ∀ x ∈ fpJ h' j' root, x ∈ fpJ h j root :=
+    ∃ p nm j', m.parent = some p ∧ (stepsOf h).getLast? = some (nameStepV nm) ∧ J.popAt j p.loc nm = some j' ∧
+      DocInv h' root j' ∧ ∀ x ∈ fpJ h' j' root, x ∈ fpJ h j root :=
   popMatch_refines stepsOf root j h h' mm m hi hpop
 
 /-- every other outcome of `pop_match` (nothing matched, an error) leaves the store as it is -/
